@@ -8,7 +8,7 @@ package compiler
 // package-level IR constants / runtime function handles: assigned once during set-up, never afterwards
 immutable g:compiler.zero g:compiler.ddp_runtime_error_irfun g:compiler.ddpint
 // the AST is not rewritten during code generation
-immutable ast.BinaryExpr ast.Indexing ast.UnaryExpr ast.TernaryExpr
+immutable ast.BinaryExpr ast.Indexing ast.UnaryExpr ast.TernaryExpr ast.Module.Ast ast.Ast.Faulty compiler.compiler.ddpModule
 // the compiler's type descriptors and IR constants are created once during set-up
 immutable compiler.compiler.ddpinttyp compiler.compiler.ddpfloattyp compiler.compiler.ddpbytetyp compiler.compiler.ddpbooltyp compiler.compiler.ddpchartyp
 immutable g:compiler.zerof g:compiler.all_ones g:compiler.all_ones8 g:compiler.ddpfloat g:compiler.ddpbyte g:compiler.ddpbool g:compiler.ddpchar g:compiler.zero8
